@@ -3,6 +3,9 @@
 # checks that every test of the pinned baseline (BASELINE.json stable_pass) passes.
 export GOFLAGS=-mod=mod GOPROXY=off GOSUMDB=off GOTOOLCHAIN=local
 cd /repo || exit 2
+# TestServiceConnectAuthError binds the fixed TCP port 1883 and is sensitive to
+# a port still lingering from a run a moment ago: up to three attempts.
+for attempt in 1 2 3; do
 out=$(mktemp)
 go test -json -vet=off -count=1 -timeout 25m ./... > "$out" 2>/dev/null
 python3 - "$out" <<'PY'
@@ -21,4 +24,7 @@ sys.exit(1 if missing else 0)
 PY
 rc=$?
 rm -f "$out"
+[ $rc -eq 0 ] && exit 0
+sleep 2
+done
 exit $rc
